@@ -104,6 +104,12 @@ ErrStmts == [
   UndefinedAssign  |-> <<SAssign(Nm(<<110, 111>>), I(1))>>,
   UndefinedOpAssign |-> <<SOpAssign(Nm(<<110, 111>>), "+", I(1))>>,
   OpAssignTypes    |-> <<SOpAssign(Vv, "+", EStr(<<115>>))>>,
+  OpAssignTypesElem |-> <<SOpAssign(EIndex(Xs, I(1)), "+", EStr(<<115>>))>>,
+  OpAssignTypesProp |-> <<SDecl(Q, EObj(<<Pair(EStr(KA), I(1))>>)), SOpAssign(EProp(Q, KA), "-", EStr(<<115>>))>>,
+  OpAssignTypesIdx  |-> <<SDecl(Q, EObj(<<Pair(EStr(KA), I(1))>>)), SOpAssign(EIndex(Q, EStr(KA)), "*", ENull)>>,
+  OpAssignZeroVar   |-> <<SOpAssign(Vv, "/", I(0))>>,
+  OpAssignZeroElem  |-> <<SOpAssign(EIndex(Xs, I(0)), "%", I(0))>>,
+  OpAssignZeroProp  |-> <<SDecl(Q, EObj(<<Pair(EStr(KA), I(1))>>)), SOpAssign(EProp(Q, KA), "/", I(0))>>,
   ListDestructureOnNonList |-> <<SDecl(EPat(<<Q>>), I(1))>>,
   ListDestructureItemMismatch |-> <<SDecl(EPat(<<Q>>), EList(<<I(1), I(2)>>))>>,
   ListCollectTooFew |-> <<SDecl(EPatRest(<<Q, Nm(<<114>>), Nm(<<115>>)>>), EList(<<I(1)>>))>>,
